@@ -9,7 +9,7 @@ CLAIMED = {
    "Every history up to the stated length over the 8-symbol alphabet, plus seeded-random histories (incl. cores > 65536 blocks), is executed through the public API on harness-owned storage and compared after every step with a list model; observations before/after every reopen are compared as a pure differential. Exploration is the honest level: nothing is claimed beyond the enumerated bound and the sampled histories.",
    "trusts the instrumented in-memory backend (cross-validated against the stock memory/disk backends by C14) and the list model (harness/src/model.rs)"),
  "C02": ("fault_enumeration",
-   "crash-point enumeration: every prefix of the journal of mutating storage operations x generated histories (bounded-exhaustive + proptest), before-or-after oracle + usability suffix variants + one level of nested crashes + random crash chains",
+   "crash-point enumeration: every prefix of the journal of mutating storage operations x generated histories (bounded-exhaustive + proptest), reopened with open mode or by building with the key pair, before-or-after oracle + usability suffix variants + one level of nested crashes + random crash chains",
    "For each generated history all crash points (journal prefixes) are enumerated (only inside calls that issue more than 96 storage operations - flushes of batches of hundreds of blocks - interior points are sampled every 16th, counted in the evidence); the recovered core must equal the model before or after the call in progress and stay usable. Histories are bounded-exhaustive for short lengths and seeded-random beyond; writer and replica (proof application) histories; plus crash chains (many crashes along one history).",
    "assumes each storage operation is atomic and durable in issue order (given by the statement); crashes before the first build() returned are out of scope"),
  "C03": ("exploration",
@@ -45,11 +45,11 @@ CLAIMED = {
    "After every step of scaled histories has(i) is compared with the model for all i < length and probed beyond it, and contiguous_length with the first missing index, on writers (incl. crash recovery from generated journal prefixes) and replicas.",
    "replica-side clears only where the neighbours are held or log ends (otherwise the replica may legitimately lack the tree nodes it needs)"),
  "C11": ("exploration",
-   "round-trip + differential against an independent compact-encoding encoder + every strict prefix must fail to decode; boundary cross-product enumerated, seeded-random composite values (proptest)",
+   "round-trip + differential against an independent compact-encoding encoder + every strict prefix must fail to decode; boundary cross-product enumerated (integers, byte-string lengths up to 65537, lists up to 300 nodes), seeded-random composite values (proptest); values with a node hash that is not 32 bytes must be refused or keep every promise",
    "For generated values of all eight message types the announced size, the bytes written, an independent encoding of the fields and the decoded value must agree, and every strict prefix must decode to an error without panicking.",
    "valid encodings and their prefixes only (arbitrary bytes may legitimately make the dependency allocate)"),
  "C12": ("exploration",
-   "model-based PBT + raw-byte scan of all four files for the secret key + byte-for-byte file comparison around refused calls + crash-point enumeration inside make_read_only",
+   "model-based PBT + raw-byte scan of all four files for the secret key + byte-for-byte file comparison around refused calls + crash-point enumeration inside make_read_only + rebuilds on existing storage with the full / public-only key pair",
    "Histories with make_read_only at generated positions (bounded-exhaustive over 9 symbols, then random) on writers and replicas; files are scanned for the key after the call and after every later operation; every crash point of histories containing the call is enumerated.",
    "fixed test key pair; the scan looks for the 32-byte secret and both of its 16-byte halves"),
  "C13": ("exploration",
@@ -57,7 +57,7 @@ CLAIMED = {
    "For every call of generated histories the exact list of events every subscriber must have seen is computed from the model and compared, including refused/altered proofs and failing calls.",
    "calls the statement does not mention (missing_nodes, clear) are only required not to announce availability"),
  "C14": ("exploration",
-   "differential across storage backends (instrumented memory, journaled, stock random-access-memory with several page sizes, stock disk in a scratch directory, with and without the sparse feature) x node cache configurations (off, default, 3 nodes) over generated histories with honest and arbitrary peer requests + enumerated refused-request-then-growth scenarios: all step results, complete proofs and file bytes compared",
+   "differential across storage backends (instrumented memory, journaled, stock random-access-memory with several page sizes, stock disk in a scratch directory, with and without the sparse feature) x node cache configurations (off, default, 3 nodes) over generated histories with honest and arbitrary peer requests, altered proofs and re-creation with overwrite (reference: brand-new storage) + enumerated refused-request-then-growth scenarios: all step results, complete proofs and file bytes compared",
    "The same generated history (writer ops and replication steps, one key pair) runs on every configuration; any difference in a result or in a file byte is a violation.",
    "physical allocation is not compared (punched holes read back as zeros); thorough additionally runs a build without the sparse feature"),
  "C15": ("exploration",
